@@ -166,6 +166,31 @@ func VerifC05Order() {
 			reqCycle = true
 		}
 	}
+	// ord[x][y]: x has to come after y through some chain of After / Require entries; a pair that is ordered both
+	// ways (a cycle mixing the two relations, of any length) cannot be satisfied by any order and is not asserted
+	ord := map[string]map[string]bool{}
+	for _, x := range s.names {
+		ord[x] = map[string]bool{}
+		for _, y := range s.schema[x].Require {
+			ord[x][y] = true
+		}
+		for _, y := range s.schema[x].After {
+			ord[x][y] = true
+		}
+	}
+	for range s.names {
+		for _, x := range s.names {
+			for _, y := range s.names {
+				if ord[x][y] {
+					for _, z := range s.names {
+						if ord[y][z] {
+							ord[x][z] = true
+						}
+					}
+				}
+			}
+		}
+	}
 	relOK := true
 	nonAdjacent := false // a violated After pair with another handler of the same phase between the two
 	for i := range s.calls {
@@ -182,7 +207,7 @@ func VerifC05Order() {
 			// x ran first: violated when x must come after y
 			if verifHas(s.schema[x].After, y) || (!reqCycle && verifHas(s.schema[x].Require, y)) {
 				// unless y must also come after x (cycle: no order can satisfy both)
-				if !(verifHas(s.schema[y].After, x) || verifHas(s.schema[y].Require, x)) {
+				if !ord[y][x] {
 					relOK = false
 					if verifHas(s.schema[x].After, y) {
 						// position in the sorted target list (= the active list after / before the transition)
@@ -198,6 +223,17 @@ func VerifC05Order() {
 							// canceled transition: the sorted target list is not observable
 							nonAdjacent = true
 						}
+						// the list SortStates actually sorts (t.Enters / t.Exits in their initial order) is not the
+						// active list: with three or more states in the same phase the pair may be non-adjacent there
+						same := 0
+						for _, c := range s.calls {
+							if verifRank(c.name) == ra {
+								same++
+							}
+						}
+						if same >= 3 {
+							nonAdjacent = true
+						}
 					}
 				}
 			}
@@ -209,7 +245,10 @@ func VerifC05Order() {
 		for _, c := range s.calls {
 			seq = append(seq, c.name)
 		}
-		println("VERIF-CALLS", len(seq), verifJoin(seq), "pre", verifJoin(s.pre), "called", verifJoin(called))
+		println("VERIF-CALLS", len(seq), verifJoin(seq), "pre", verifJoin(s.pre), "called", verifJoin(called), "post", verifJoin(post))
+		for _, n := range s.names {
+			println("VERIF-DUMP state", n, "require", verifJoin(s.schema[n].Require), "after", verifJoin(s.schema[n].After))
+		}
 	}
 	vKnown("c05-after-not-transitive", nonAdjacent)
 	vAssert("after-require-order", relOK)
